@@ -245,20 +245,20 @@ type epConn struct {
 	inbox  []epIn
 	closed int
 
-	openT     int   // event index of the successful dial
-	handedT   int   // event index of the first GetOrCreate return that handed it out
-	killT     int   // != 0: a kill may have hit it from this event on (UNCERTAIN)
-	deadT     int   // != 0: must be dead from this event on
-	deadWhy   string
-	touchV    int64 // virtual time of the start of the last call that created / returned it
-	byReset   bool  // killT was set only because a Reset/Close overlapped
-	byInval   bool
-	wStarted  int
-	wOK       int
-	fed       int
-	handled   int
-	retained  bool
-	released  bool
+	openT    int // event index of the successful dial
+	handedT  int // event index of the first GetOrCreate return that handed it out
+	killT    int // != 0: a kill may have hit it from this event on (UNCERTAIN)
+	deadT    int // != 0: must be dead from this event on
+	deadWhy  string
+	touchV   int64 // virtual time of the start of the last call that created / returned it
+	byReset  bool  // killT was set only because a Reset/Close overlapped
+	byInval  bool
+	wStarted int
+	wOK      int
+	fed      int
+	handled  int
+	retained bool
+	released bool
 }
 
 func (c *epConn) name() string { return fmt.Sprintf("E%d(k%d)", c.id, c.key) }
@@ -423,7 +423,7 @@ type epObs struct {
 	dials  []epDial
 	shared map[int]*UdpEndpoint
 
-	tracking map[int]*epConn               // managed thread id -> endpoint whose Track call is running
+	tracking map[int]*epConn            // managed thread id -> endpoint whose Track call is running
 	tuples   map[bpfTuplesKey][]*epConn // registered owners (endpoints), in registration order
 
 	resetting, invalidating int
